@@ -7,6 +7,8 @@ CONSTANTS
  Kinds = {"ok", "ok206", "short0", "short1", "short206", "okclbad", "ok200", "reset", "s429", "s429ra", "s408", "s500", "s502", "s504", "s403", "s503", "s404", "s416", "s401n", "s401s", "s401b"}
  MaxFaults = 4
  MaxSeeks = 1
+ Conc = 8
+ FixLeak = FALSE
  PrioAsc = TRUE
  Rs = {1, 2}
  Prios = {0, 1}
